@@ -649,7 +649,17 @@ where
                         }
                         Ok(None) => {
                             if end_of_message {
-                                let eof_result = recognizer.decode_eof(src)?;
+                                let eof_result = match recognizer.decode_eof(src) {
+                                    Ok(eof_result) => eof_result,
+                                    Err(e) => {
+                                        // The whole body is available so the rest of it is skipped
+                                        // and the bytes that follow the frame are kept.
+                                        src.clear();
+                                        src.unsplit(rem);
+                                        *state = RequestState::ReadingHeader;
+                                        break Err(e.into());
+                                    }
+                                };
                                 let final_remaining = src.remaining();
                                 let consumed = new_remaining - final_remaining;
                                 *remaining -= consumed;
